@@ -34,7 +34,7 @@ def cases(rng, tier):
     cs = []
     masks = list(range(0, 1 << (8 if tier == "quick" else 10)))
     masks += [1 << a for a in range(64)] + [(1 << a) | (1 << b) for a in range(64) for b in range(a + 1, 64, 7)]
-    for _ in range(300 if tier == "quick" else 2000):
+    for _ in range(300 if tier == "quick" else 10000):
         w = rng.choice([8, 16, 32, 48, 63, 64])
         m = rng.getrandbits(w)
         if rng.random() < 0.3:
@@ -53,7 +53,7 @@ def cases(rng, tier):
         cs.append(Case("vregnew %d" % n, "run_vreg_new %s" % cN(n), p_entries, m_entries, kind="vregnew",
                        oracle=(lambda o, n=n: o == ("ok", bits_of((1 << n) - 1))) if n < 64 else None))
     # index forms
-    for _ in range(200 if tier == "quick" else 1500):
+    for _ in range(200 if tier == "quick" else 6000):
         m = rng.getrandbits(rng.choice([6, 12, 30, 63]))
         k = bin(m).count("1")
         idx = [rng.randrange(max(k, 1) + 2) for _ in range(rng.randint(0, 4))]      # repeats and any order allowed
@@ -96,7 +96,7 @@ def cases(rng, tier):
         cs.append(Case("getvreg %d" % n, "run_vreg_new %s" % cN(n), p_entries, m_entries,
                        oracle=lambda o, n=n: o == ("ok", bits_of((1 << n) - 1)), kind="getvreg"))
     # classical registers: initial values wider than the register, update sequences
-    for _ in range(300 if tier == "quick" else 2000):
+    for _ in range(300 if tier == "quick" else 10000):
         n = rng.choice([0, 1, 2, 3, 4, 5, 8, 13, 31, 32, 33, 62, 63])
         st = rng.getrandbits(min(64, rng.choice([n + 1, n + 4, 64]))) if rng.random() < 0.7 else rng.getrandbits(max(n, 1))
         ops = []
@@ -127,7 +127,7 @@ def cases(rng, tier):
         cs.append(Case(h, c, pi, pm, oracle=lambda o, want=want: o == want, kind="creg",
                        sig="creg-initial-value-unmasked" if st >> n else None))
     # concatenation
-    for _ in range(150 if tier == "quick" else 1000):
+    for _ in range(150 if tier == "quick" else 5000):
         n1 = rng.randint(0, 20); n2 = rng.randint(0, 20)
         s1 = rng.getrandbits(n1 + rng.choice([0, 0, 3])); s2 = rng.getrandbits(n2 + rng.choice([0, 0, 3]))
 
